@@ -244,6 +244,27 @@ package resolve
 //@     invariant forall(k, 0, len(matches), exists(j, 0, rangeidx + 1, matches[k] == versions[j]))
 //@   property C12
 
+// matchNPMRequirement. A requirement that is not a range selects one version:
+// the first (in npm order) whose string equals the requirement or one of whose
+// tags equals it (the two single-element returns; `return nil` only when no
+// version string equals it). A range keeps exactly the versions the constraint
+// matches, each of them an element of the list as sortNPMVersions left it.
+//@ func matchNPMRequirement
+//@   assert at "return []Version{v}"#1: v.Version == req.Version && exists(j, 0, len(vers), vers[j] == v)
+//@   assert at "return []Version{v}"#2: tag == req.Version
+//@   assert at "return []Version{v}"#2: exists(j, 0, len(vers), vers[j] == v)
+//@   assert at "return nil": forall(j, 0, len(vers), vers[j].Version != req.Version)
+//@   assert at "return matches": forall(k, 0, len(matches), constraint.Match(matches[k].Version))
+//@   assert at "return matches": forall(j, 0, len(vers), imp(constraint.Match(vers[j].Version), exists(k, 0, len(matches), matches[k] == vers[j])))
+//@   loop 0
+//@     invariant forall(j, 0, rangeidx + 1, vers[j].Version != req.Version)
+//@   loop 2
+//@     invariant fresh(matches)
+//@     invariant forall(k, 0, len(matches), constraint.Match(matches[k].Version))
+//@     invariant forall(j, 0, rangeidx + 1, imp(constraint.Match(vers[j].Version), exists(k, 0, len(matches), matches[k] == vers[j])))
+//@     invariant forall(k, 0, len(matches), exists(j, 0, rangeidx + 1, matches[k] == vers[j]))
+//@   property C12
+
 // sortNPMVersions, the scan for the version tagged latest: allPrerelease holds
 // exactly when every version scanned so far parsed and is a prerelease; the
 // remembered index is the last version whose tags mention latest.
